@@ -99,8 +99,12 @@ end order
 
 /-! ### the extracted tokens (see `harness/probes/logits.py`) -/
 
+/-- does the guard of a stage test only the *value* of its option (`if top_k > 0:`), whatever its representation
+(python int, numpy integer, 0-dim tensor)?  `false` when the source guard also contains a type test. -/
+def guardPlain (stage : String) : Bool := (Params.logitsStageGuards.lookup stage).getD true
+
 /-- `if top_k > 0:` -/
-def topkOn (k : Nat) : Bool := Params.logitsTopkOnCmp.evalNat k 0
+def topkOn (k : Nat) : Bool := guardPlain "topk" && Params.logitsTopkOnCmp.evalNat k 0
 /-- operator of `logits < torch.topk(…)[0][..., -1, None]` -/
 def topkCmp : Cmp := Params.logitsTopkFilter.1
 /-- which order statistic the threshold is: `torch.topk(logits, k' + a)[0][..., -e]` is the
@@ -113,7 +117,7 @@ variable {K : Type} [Sub K] [OfNat K 0] [OfNat K 1] [LT K] [DecidableLT K]
 
 /-- top-p filter skipped: `not (top_p > 0)` in `process_logits`, or `top_p <= 0.0 or top_p >= 1.0` inside -/
 def toppOff (p : K) : Bool :=
-  !cmpK Params.logitsToppOnCmp p 0 ||
+  !guardPlain "topp" || !cmpK Params.logitsToppOnCmp p 0 ||
     cmpK (Params.logitsToppGuardCmps.getD 0 .le) p 0 || cmpK (Params.logitsToppGuardCmps.getD 1 .ge) p 1
 
 /-- right-hand side of `cumulative_probs <= (1 - top_p)` -/
@@ -235,7 +239,7 @@ def stClipAlways (clip : K → K) (n : Nat) (X : Vec (Option K)) : Vec (Option K
 
 /-- `if tanh_clipping > 0: logits = torch.tanh(logits) * tanh_clipping` -/
 def stClip (clip : K → K) (c : Cfg K) (n : Nat) (X : Vec (Option K)) : Vec (Option K) :=
-  if c.clipOn then stClipAlways clip n X else X
+  if guardPlain "clip" && c.clipOn then stClipAlways clip n X else X
 
 /-- `if mask_logits: logits[~mask] = float("-inf")` -/
 def stMask (n : Nat) (mask : Nat → Bool) (X : Vec (Option K)) : Vec (Option K) :=
